@@ -46,10 +46,36 @@ def _assigns(fi, name):
 def rule_thresholds(ctx):
     fi = ctx.repo.find_function(f"{F_QUAL}::{CLS}.fit")
     R = "R-thresholds"
-    ks = _assigns(fi, "to_keep")
-    if len(ks) != 1:
-        raise AnalysisError("ChainedDiscretizer.fit: anchor `to_keep` not found exactly once")
+    # the list of kept values: the name the values-to-merge comprehension filters on
+    # (`[v for v in level.values() if v not in <kept>]`), whatever it is called
+    keep_name = "to_keep"
+    vtg = single_defs(fi.node).get("values_to_group")
+    if isinstance(vtg, ast.ListComp) and vtg.generators and vtg.generators[0].ifs:
+        cc = cmp_canon(vtg.generators[0].ifs[0])
+        if cc and cc[1] == "not in" and cc[2].isidentifier():
+            keep_name = cc[2]
+    ks = _assigns(fi, keep_name)
+    if not ks:
+        raise AnalysisError("ChainedDiscretizer.fit: the list of kept values (filter of values_to_group) was not found")
+    # `k = A ; k = k + B` (one block, in sequence) is `k = A + B`
+    ks = sorted(ks, key=lambda n: n.lineno)
     v = ks[0].value
+    for later in ks[1:]:
+        uses = [n for n in ast.walk(later.value) if isinstance(n, ast.Name) and n.id == keep_name]
+        if len(uses) != 1:
+            raise AnalysisError("ChainedDiscretizer.fit: the list of kept values is assigned several times independently")
+        import copy as _copy
+
+        lv = _copy.deepcopy(later.value)
+        for n in ast.walk(lv):
+            for f, val in ast.iter_fields(n):
+                if isinstance(val, ast.Name) and val.id == keep_name:
+                    setattr(n, f, v)
+                elif isinstance(val, list):
+                    for i, x in enumerate(val):
+                        if isinstance(x, ast.Name) and x.id == keep_name:
+                            val[i] = v
+        v = lv
     cmps = [cmp_canon(c) for c in ast.walk(v) if isinstance(c, ast.Compare)]
     cmps = [c for c in cmps if c]
     ok = any(c[0] == "self.min_freq" and c[1] == "<=" and "frequencies" in c[2] for c in cmps)
@@ -57,7 +83,7 @@ def rule_thresholds(ctx):
            "" if ok else f"comparison found: {cmps}; the statement requires `frequency >= min_freq` (non-strict)")
     ok2 = "self.str_nan" in unparse(v) and isinstance(v, ast.BinOp) and isinstance(v.op, ast.Add)
     ctx.ob(R, construct(fi, "the missing-value sentinel is always kept"), ok2, loc(fi, ks[0]),
-           "" if ok2 else "to_keep must include self.str_nan so that missing values stay their own modality")
+           "" if ok2 else "the kept values must include self.str_nan so that missing values stay their own modality")
     vcs = [c for c in calls(fi, "value_counts")]
     ok3 = bool(vcs) and all(const_value(kwarg(c, "normalize")) is True and const_value(kwarg(c, "dropna"), None) in (None, True) for c in vcs)
     fp = ctx.repo.find_function(f"{F_QUAL}::{CLS}._prepare_data")
@@ -106,7 +132,8 @@ def rule_merge_target(ctx):
         isinstance(vtg, ast.ListComp) and len(vtg.generators) == 1
         and unparse(vtg.generators[0].iter) == f"{level}.values()"
         and isinstance(vtg.elt, ast.Name) and unparse(vtg.generators[0].target) == vtg.elt.id
-        and len(vtg.generators[0].ifs) == 1 and cmp_canon(vtg.generators[0].ifs[0]) == (vtg.elt.id, "not in", "to_keep")
+        and len(vtg.generators[0].ifs) == 1 and (cmp_canon(vtg.generators[0].ifs[0]) or ("", "", ""))[:2] == (vtg.elt.id, "not in")
+        and (cmp_canon(vtg.generators[0].ifs[0]) or ("", "", ""))[2].isidentifier()  # the kept list (checked by R-thresholds)
     )
     ctx.ob(R, construct(fi, "values to merge = members of the level that are not kept"), ok, loc(fi, vtg),
            "" if ok else f"found {short(vtg)}")
